@@ -22,6 +22,8 @@ proof fn lemma_pow256()
     ensures pow256(0) == 1, pow256(1) == 0x100, pow256(2) == 0x1_0000, pow256(3) == 0x100_0000, pow256(4) == 0x1_0000_0000, pow256(5) == 0x100_0000_0000, pow256(6) == 0x1_0000_0000_0000, pow256(7) == 0x100_0000_0000_0000, pow256(8) == 0x1_0000_0000_0000_0000
 { reveal_with_fuel(pow256, 10); }
 
+/// length of the id at the start of `a` (the iterator's convention: a first byte 0x00 is the one-byte id 0)
+pub open spec fn sp_id_len(a: Seq<u8>) -> int { if a.len() == 0 || a[0] == 0 { 1 } else { 8 - sp_ilog2(a[0]) as int } }
 pub open spec fn sp_off(o: Option<usize>) -> int { match o { Some(v) => v as int, None => 0 } }
 
 /// Model of std::io::Read (ASSUMED, DESIGN.md §7): a finite, addressable stream of bytes.  `read` may return
